@@ -128,7 +128,8 @@ fn main() -> Result<(), anyhow::Error> {
             number_of_dimensions_in_input = number_of_dimensions_in_input.max(n);
 
             // Convert the text representation to a Coor4D
-            args.extend(&(["0", "0", "0", "NaN", "0"][args.len()..]));
+            // (lines with more than 4 columns: the extra columns are ignored)
+            args.extend(&(["0", "0", "0", "NaN", "0"][args.len().min(5)..]));
             let mut b: Vec<f64> = vec![];
             for e in args {
                 b.push(angular::parse_sexagesimal(e));
